@@ -55,7 +55,7 @@ CHECKS = {
             "C17_frame_total (any layout incl. none: one colour per LED, nothing outside the frame written), C17_layout (an action paints at most the LED of its own key), C17_active (LEDs of keys at a held pitch show the active colour whatever was painted before), C17_midi_in_note_off / note_on_zero / note_on / cleared, C17_panic_clears, C17_channel_colours, C17_source_facts, witnesses C17_unchecked_crashes / C17_unchecked_hits_led0; independent per-LED expectation from State(), the device's own MIDI output and the MIDI-input script evaluated on every captured frame.",
             "Trusted/partial: go-colorful HSV round trip (class colours taken from the real shiftColor each run, measured ±1/255); frames sampled after quiescence; |12·octave+semitone| ≤ 127."),
     "C18": ("Lean 4 proof over a file-tree model + differential correspondence + real interrupted runs (RLIMIT_FSIZE, strace fault injection)",
-            "C18_frame (user files untouched, any tree), C18_restores (factory files equal the template after a successful run), C18_blacklist_created; crash states of the model are replayed on the real function.",
+            "For every template and tree: C18_frame (everything that is not a factory template path is untouched), C18_restores, C18_blacklist_created, C18_idempotent, C18_succeeds (every regular tree), crashStates_similar; instantiated with the repository's embedded template (Gen.templateShape, regenerated and compared with the real embed.FS on every run): C18_template_facts, C18_repo, C18_crash_repo (a later run on whatever an interrupted run left restores the factory files and keeps the user files), C18_fresh_repo (absent directory: complete tree).",
             "Trusted: per-syscall behaviour of the filesystem; a crash inside write(2) is an arbitrary prefix; permissions not varied (root)."),
     "C19": ("Lean 4 proof over a transition-system model of the watcher goroutine + source facts regenerated from monitor.go + differential runs of the real watcher on inotify",
             "C19_accounting / C19_silent (notifications ≤ write events on names with the suffix, any schedule), C19_take_offers / C19_no_take_while_offering, C19_stops (guarded hand-off: the goroutine returns after cancellation without a reader, from every state), C19_stuck_unguarded (witness for the repaired defect), C19_source_facts (suffix \".toml\", hand-off selected against ctx.Done(), Op test).",
